@@ -131,6 +131,31 @@ type SCEVGenericExpr struct {
 	Op token.Token
 	X  SCEV
 	Y  SCEV
+	// size is the node count of the expression written out as a tree (0 = built by hand, small).
+	size int
+}
+
+// MaxSCEVNodes bounds the tree size of any expression built by computeSCEV. Sub-expressions are
+// memoised and therefore shared, so without a bound a chain x = x + x of depth d prints 2^d nodes.
+const MaxSCEVNodes = 256
+
+// flatSize is the tree size of s without recursing: composite nodes carry their size.
+func flatSize(s SCEV) int {
+	if e, ok := s.(*SCEVGenericExpr); ok && e.size > 0 {
+		return e.size
+	}
+	return 1
+}
+
+// scevSize is the tree size of an operand handed to foldSCEV.
+func scevSize(s SCEV) int {
+	switch e := s.(type) {
+	case *SCEVAddRec:
+		return 1 + flatSize(e.Start) + flatSize(e.Step)
+	case *SCEVMax:
+		return 1 + flatSize(e.X) + flatSize(e.Y)
+	}
+	return flatSize(s)
 }
 
 func (s *SCEVGenericExpr) EvaluateAt(k *big.Int, cache map[SCEV]*big.Int) *big.Int {
@@ -661,6 +686,10 @@ func computeSCEVBody(v ssa.Value, loop *Loop, depth int) SCEV {
 	if binOp, ok := v.(*ssa.BinOp); ok {
 		left := computeSCEV(binOp.X, loop, depth+1)
 		right := computeSCEV(binOp.Y, loop, depth+1)
+		if 1+scevSize(left)+scevSize(right) > MaxSCEVNodes {
+			// Too large to expand symbolically: keep the value opaque.
+			return &SCEVUnknown{Value: v, IsInvariant: left.IsLoopInvariant(loop) && right.IsLoopInvariant(loop)}
+		}
 		return foldSCEV(binOp.Op, left, right, loop)
 	}
 	if instr, ok := v.(ssa.Instruction); ok {
@@ -685,5 +714,5 @@ func SCEVFromConst(c *ssa.Const) SCEV {
 }
 
 func foldSCEV(op token.Token, left, right SCEV, loop *Loop) SCEV {
-	return &SCEVGenericExpr{Op: op, X: left, Y: right}
+	return &SCEVGenericExpr{Op: op, X: left, Y: right, size: 1 + scevSize(left) + scevSize(right)}
 }
